@@ -36,6 +36,8 @@ size_t outbuf_extend (outbuffer_t * outbuf, size_t len) {
     }
   else
     {
+      if (len > USHRT_MAX)
+        len = USHRT_MAX;		/* TRUNCATED: the first piece is held to the limit a growing buffer has */
       outbuf->buffer = new_string (len, "outbuf_add");
       outbuf->real_size = 0;
     }
